@@ -339,16 +339,23 @@ pub fn exprs(tier: Tier) -> Vec<FilterD> {
         }
     }
     if tier == Tier::Thorough {
-        let d2: Vec<FilterD> = v[b.len()..].iter().step_by(7).cloned().collect();
+        // depth 3: every depth-2 expression under the unary combinators, and every base combined
+        // with every second depth-2 expression (both combinators, the deeper operand on either side)
+        let d2: Vec<FilterD> = v[b.len()..].to_vec();
         for x in &d2 {
             v.push(Not(bx(x)));
             v.push(Reload(bx(x)));
+            v.push(Some_(bx(x)));
         }
-        let small: Vec<FilterD> = vec![Lv(1), Lv(3), Tg("a=info".into()), EnvSp, Fn(0, None), Fn(1, Some(3)), Dyn(0, None), Dyn(1, Some(5)), None_];
-        for x in &small {
-            for y in &d2 {
-                v.push(And(bx(x), bx(y)));
-                v.push(Or(bx(y), bx(x)));
+        for (k, y) in d2.iter().enumerate() {
+            for (j, x) in b.iter().enumerate() {
+                if (k + j) % 2 == 0 {
+                    v.push(And(bx(x), bx(y)));
+                    v.push(Or(bx(y), bx(x)));
+                } else {
+                    v.push(And(bx(y), bx(x)));
+                    v.push(Or(bx(x), bx(y)));
+                }
             }
         }
     }
